@@ -222,6 +222,35 @@ theorem wf_addReader (t t' : Tbl) (bs : Option Nat) (cs : List ColDef) (rows : L
           intro he; simp [he] at h0
         exact ⟨hi, hn, hne, feed_fragOk t hw cs hcs _ tr _ _ _ (fun _ hf => hf) hfeed⟩
 
+theorem wf_merge (t t' : Tbl) (c : String) (cs : List ColDef) (rows : List Row) (hw : WF t)
+    (h : mergeCols t c cs rows = .ok t') : WF t' := by
+  simp only [mergeCols] at h
+  split at h
+  · cases h
+  · rename_i h0
+    simp only [mergeOk, Bool.not_eq_true', Bool.and_eq_false_iff, not_or, Bool.not_eq_false, Bool.and_eq_true,
+      Bool.not_eq_true, List.isEmpty_eq_false_iff] at h0
+    split at h
+    · cases h
+    · rename_i key _
+      split at h
+      · cases h
+      · rename_i hnew
+        split at h
+        · cases h
+        · cases h
+          have hnew' : ∀ d ∈ cs, (findFld t.schema d.name).isSome = false := by
+            intro d hd
+            exact Bool.eq_false_iff.mpr (fun hx => hnew (List.any_eq_true.mpr ⟨d, hd, hx⟩))
+          obtain ⟨hi, hn, hne⟩ := schema_append_ok t hw cs h0.1.1.1.2 hnew'
+          refine ⟨hi, hn, hne, ?_⟩
+          intro f' hf'
+          obtain ⟨f, hf, rfl⟩ := List.mem_map.mp hf'
+          refine fragOk_add t hw cs h0.1.1.1.1 f hf _ ⟨_, rfl, by simp, ?_⟩
+          intro col hc
+          obtain ⟨j, _, rfl⟩ := List.mem_map.mp hc
+          simp [column_length (hw.frags f hf)]
+
 /-! ### alter -/
 
 theorem nodup_replace (l : List Int) (a b : Int) (hn : l.Nodup) (hb : b ∉ l) :
@@ -416,6 +445,7 @@ theorem wf_step (t t' : Tbl) (op : Op) (hw : WF t) (h : step t op = .ok t') : WF
   | addReader bs cs rows tr => exact wf_addReader t t' bs cs rows tr hw h
   | alter alts => exact wf_alter t t' alts hw h
   | drop cs => exact wf_drop t t' cs hw h
+  | merge c cs rows => exact wf_merge t t' c cs rows hw h
 
 theorem wf_stepKeep (t : Tbl) (op : Op) (hw : WF t) : WF (stepKeep t op) := by
   simp only [stepKeep]
